@@ -78,6 +78,9 @@ def pysam_copy(src, dst):
         header = vf.header
         have_c, have_f, have_i = set(header.contigs), set(header.formats), set(header.info)
         for fixed, fmt, _ in recs:
+            for name in fixed[6].split(";"):
+                if name != "." and name not in header.filters:
+                    header.filters.add(name, None, None, name)
             if fixed[0] not in have_c:
                 header.contigs.add(fixed[0]); have_c.add(fixed[0])
             for k in (fmt.split(":") if fmt else []):
@@ -149,7 +152,7 @@ def run_case(ctx, case, n):
              + ("+snvs" if o["only_snvs"] else ""))
     ctx.dist("output", out_kind)
     ctx.dist("file_shape", ("split " if v.get("split_chrom") else "") + ("manyALT " if v.get("many_alts") else "")
-             + ("oddTagDefs " if v.get("odd_tag_defs") else "") + ("undeclInfo " if v.get("undeclared_info") else "") + (v.get("refused") or "") + (" badSample" if o.get("bad_sample") else "")
+             + ("oddTagDefs " if v.get("odd_tag_defs") else "") + ("undeclInfo " if v.get("undeclared_info") else "") + ("undeclFILTER " if v.get("undeclared_filter") else "") + (v.get("refused") or "") + (" badSample" if o.get("bad_sample") else "")
              + (" pedSamples" if o.get("use_ped_samples") else "") or "plain")
     hin = [parse_hline(l) for l in header_lines(vcf)]
     fails = []
@@ -368,7 +371,10 @@ def run_case(ctx, case, n):
         if "header" in ans and not fails:
             mdefs = {(h["key"], h["id"]) for h in ans["header"] if h["id"] is not None}
             # htslib always defines FILTER PASS; contigs it adds while parsing undeclared records are modelled by `contigs`
-            idefs = {x for x in defs_out if x != ("FILTER", "PASS")}
+            # (and, with fixes/F60.patch, the FILTERs the body uses without declaring them: not part of the header model)
+            declared = {h["id"] for h in hin if h["key"] == "FILTER"}
+            undeclared = {("FILTER", x) for fixed, _, _ in brecs for x in fixed[6].split(";") if x not in declared}
+            idefs = {x for x in defs_out if x != ("FILTER", "PASS")} - undeclared
             mdefs = {x for x in mdefs if x != ("FILTER", "PASS")}
             if idefs != mdefs:
                 ctx.disagree(opname, case, sorted(map(str, idefs - mdefs)), sorted(map(str, mdefs - idefs)))
